@@ -215,13 +215,44 @@ def gen_static_case(rng):
                   'cterm': gen_term(rng, gen_static_value), 'mode': rng.choice(MODES)})
 
 
-def gen_var_case(rng, mode=None):
-    a = gen_annot(rng)
-    internal = None if rng.random() < 0.1 else gen_rules(rng, gen_var_value)
-    nterm = gen_term(rng, gen_var_value) if rng.random() < 0.6 else None
-    cterm = gen_term(rng, gen_var_value) if rng.random() < 0.6 else None
-    return jcase({'a': W.dump(a), 'internal': internal, 'nterm': nterm, 'cterm': cterm,
-                  'mode': mode or rng.choice(MODES), 'max_mods': rng.choice([0, 1, 1, 2, 2, 3, 4])})
+def estimate_forms(c):
+    """number of forms the case asks for (to keep single cases small)"""
+    c = unjcase(c)
+    a = W.undump(c['a'])
+    s = a.sequence
+    n = len(s)
+    int0 = a._internal_mods or {}
+    rules = [(k, norm_var_value(v)) for k, v in (c['internal'] or {}).items()]
+    free, forced = [], 1
+    for i in range(n):
+        g = sum(len(groups) for k, groups in rules if i in ref_sites(s, k))
+        if g == 0:
+            continue
+        if i in int0:
+            if c['mode'] != 'skip':
+                forced *= 1 + g
+        else:
+            free.append(g)
+    # elementary symmetric sums e_0..e_max of the group counts
+    e = [1] + [0] * c['max_mods']
+    for g in free:
+        for k in range(c['max_mods'], 0, -1):
+            e[k] += e[k - 1] * g
+    nv = 1 + sum(len(groups) for k, groups in norm_term(c['nterm'], norm_var_value, None))
+    cv = 1 + sum(len(groups) for k, groups in norm_term(c['cterm'], norm_var_value, None))
+    return sum(e) * forced * nv * cv
+
+
+def gen_var_case(rng, mode=None, cap=1500):
+    while True:
+        a = gen_annot(rng)
+        internal = None if rng.random() < 0.1 else gen_rules(rng, gen_var_value)
+        nterm = gen_term(rng, gen_var_value) if rng.random() < 0.6 else None
+        cterm = gen_term(rng, gen_var_value) if rng.random() < 0.6 else None
+        c = jcase({'a': W.dump(a), 'internal': internal, 'nterm': nterm, 'cterm': cterm,
+                   'mode': mode or rng.choice(MODES), 'max_mods': rng.choice([0, 1, 1, 2, 2, 3, 4])})
+        if estimate_forms(c) <= cap:
+            return c
 
 
 def jcase(c):
@@ -643,8 +674,8 @@ def run(chk):
     corpus = load_corpus()
 
     # ------------------------------------------------------------------ cases
-    n_static = 1500 if quick else 40000
-    n_var = 1500 if quick else 40000
+    n_static = 1500 if quick else 15000
+    n_var = 1500 if quick else 12000
     static_cases = [c for c in corpus if 'max_mods' not in c] + [gen_static_case(rng) for _ in range(n_static)]
     var_cases = [c for c in corpus if 'max_mods' in c]
     for _ in range(n_var):
@@ -699,7 +730,7 @@ def run(chk):
     # _apply_variable_mods_rec called directly (also with max counts below the starting count and negative)
     from peptacular.sequence import mod_builder as mb
     rec_cases = []
-    for _ in range(600 if quick else 15000):
+    for _ in range(600 if quick else 6000):
         a = gen_annot(rng, 0.0)
         n = len(a.sequence)
         mm = {}
